@@ -9,14 +9,15 @@ namespace PPrint
 def ChunkOk (c : Consts) (ch : Chunk) : Prop :=
   match ch.kind with
   | .text => True
-  | .name => ∃ k, ch.text = quoted k
+  | .name => ∃ k : Key, ch.text = keyText k
   | .number => numOk ch.text = true
   | .keyword => ∃ k, ch.text = c.lit k
 
 theorem chunkOk_plain (c : Consts) (t : List Char) : ChunkOk c (plain t) := by
   simp [ChunkOk, plain]
 
-theorem chunkOk_simple (c : Consts) {v : J} {s : Simple} (h : v.simple? = some s) (hw : WF v) :
+theorem chunkOk_simple (c : Consts) {sk : Bool} {v : J} {s : Simple} (h : v.simple? = some s)
+    (hw : WF sk v) :
     ChunkOk c (simpleChunk c s) := by
   cases v with
   | str x => simp [J.simple?] at h; subst h; exact chunkOk_plain c _
@@ -96,7 +97,7 @@ theorem mem_wrapItems {ch : Chunk} {L : Limits} {off : Nat} {items : List Chunk}
 theorem chunkOk_of_text (c : Consts) {ch : Chunk} (h : ch.kind = .text) : ChunkOk c ch := by
   simp [ChunkOk, h]
 
-theorem mem_entryChunks {ch : Chunk} {k : List Char} {val : List (Option Chunk)}
+theorem mem_entryChunks {ch : Chunk} {k : Key} {val : List (Option Chunk)}
     (h : some ch ∈ entryChunks k val) : ch = keyChunk k ∨ ch.kind = .text ∨ some ch ∈ val := by
   simp only [entryChunks, List.mem_cons] at h
   rcases h with h | h | h
@@ -104,11 +105,11 @@ theorem mem_entryChunks {ch : Chunk} {k : List Char} {val : List (Option Chunk)}
   · exact Or.inr (Or.inl (by simp at h; rw [h]; rfl))
   · exact Or.inr (Or.inr h)
 
-theorem chunkOk_keyChunk (c : Consts) (k : List Char) : ChunkOk c (keyChunk k) := by
+theorem chunkOk_keyChunk (c : Consts) (k : Key) : ChunkOk c (keyChunk k) := by
   simp only [ChunkOk, keyChunk]; exact ⟨k, rfl⟩
 
-theorem gen_chunkOk (c : Consts) (L : Limits) :
-    ∀ v, WF v → ∀ off ch, some ch ∈ gen c L v off → ChunkOk c ch := by
+theorem gen_chunkOk (c : Consts) (L : Limits) (sk : Bool) :
+    ∀ v, WF sk v → ∀ off ch, some ch ∈ gen c L v off → ChunkOk c ch := by
   intro v
   induction v using J.ind with
   | hs s => intro hw off ch h; simp [gen] at h; subst h; exact chunkOk_simple c (v := .str s) rfl hw
@@ -117,7 +118,7 @@ theorem gen_chunkOk (c : Consts) (L : Limits) :
   | hk k => intro hw off ch h; simp [gen] at h; subst h; exact chunkOk_simple c (v := .kw k) rfl hw
   | hl xs ih =>
     intro hw off ch h
-    have hw' := (WFList_iff xs).mp (by simpa [WF] using hw)
+    have hw' := (WFList_iff sk xs).mp (by simpa [WF] using hw)
     simp only [gen, renderList] at h
     cases xs with
     | nil => simp at h; subst h; exact chunkOk_plain c _
@@ -163,7 +164,7 @@ theorem gen_chunkOk (c : Consts) (L : Limits) :
           · simp at h; subst h; exact chunkOk_plain c _
   | hd kvs ih =>
     intro hw off ch h
-    have hw' := (WFEntries_iff kvs).mp (by simpa [WF] using hw)
+    have hw' := (WFEntries_iff sk kvs).mp (by simpa [WF] using hw)
     simp only [gen, renderDict] at h
     cases kvs with
     | nil => simp at h; subst h; exact chunkOk_plain c _
